@@ -3,11 +3,15 @@ helper's body (and an unknown SCREAMING_CASE constant by a `let` with its defini
 
 This is what keeps an "extract helper" refactoring decidable: the contract stays on the function the property talks
 about, and the helper's statements are judged inside it. Only simple helpers are inlined — no `return`, no `?`, no `.await`,
-not recursive, receiver literally `self` (or a `Self::` / free call) — so that replacing the call by
-`{ let <param> = <arg>; … <body> }` preserves the meaning. Anything else is left alone (the body then stays ill-typed and the
-obligation UNDECIDED, as before)."""
+not recursive — so that replacing the call by `{ let <param> = <arg>; … <body> }` preserves the meaning. The receiver may be
+`self` (or a `Self::` / free call) or, R15b, any simple postfix expression `RECV.helper(..)`: the helper's `self` is then bound
+by `let __self_k = &RECV;` (`&mut` / by value as the helper declares) and renamed in its body. The helper is looked up in the
+same file first and then, R15b, in the other source files of the same crate. Anything else is left alone (the body then
+stays ill-typed and the obligation UNDECIDED, as before)."""
+import glob
+import os
 import re
-from lex import lex, match_close, locate
+from lex import lex, match_close, locate, find_impls
 from extract import Source, LostAnchor
 
 
@@ -46,6 +50,164 @@ def _helper(toks, type_name, name):
     return None
 
 
+def _find_fn_anywhere(toks, name):
+    """`fn name` at any depth (a method of any impl in the file)"""
+    for i in range(len(toks) - 1):
+        if toks[i].kind == "ident" and toks[i].text == "fn" and toks[i + 1].kind == "ident" and toks[i + 1].text == name:
+            from lex import find_fn
+            return find_fn(toks, name, i, len(toks))
+    return None
+
+
+def _crate_files(path):
+    d = os.path.dirname(os.path.abspath(path))
+    while d != "/" and not os.path.exists(os.path.join(d, "Cargo.toml")):
+        d = os.path.dirname(d)
+    return [f for f in sorted(glob.glob(os.path.join(d, "src", "**", "*.rs"), recursive=True)) if os.path.abspath(f) != os.path.abspath(path)]
+
+
+def _top_stmts(text):
+    """top-level statements of a block's inner text -> list of source strings (the last may be a tail expression)"""
+    toks = lex(text)
+    out = []
+    i = 0
+    n = len(toks)
+    while i < n:
+        a = i
+        depth = 0
+        first = toks[i].text
+        blocklike = first in ("if", "match", "for", "while", "loop", "unsafe") or first == "{"
+        j = i
+        while j < n:
+            t = toks[j].text
+            if t in ("(", "[", "{"):
+                depth += 1
+            elif t in (")", "]", "}"):
+                depth -= 1
+                if depth == 0 and t == "}" and blocklike:
+                    nxt = toks[j + 1].text if j + 1 < n else None
+                    if nxt == "else":
+                        j += 1
+                        continue
+                    if nxt in (".", "?"):
+                        blocklike = False     # the block is the head of a longer expression
+                    else:
+                        if nxt == ";":
+                            j += 1
+                        break
+            elif t == ";" and depth == 0:
+                break
+            j += 1
+        j = min(j, n - 1)
+        out.append(text[toks[a].start:toks[j].end])
+        i = j + 1
+    return out
+
+
+def _has_exit(text):
+    return any((t.kind == "ident" and t.text in ("return", "await")) or t.text == "?" for t in lex(text))
+
+
+def _eliminate_early_exits(text):
+    """`if c { ..; return E; } REST` -> `if c { ..; E } else { REST }`; `return E;` -> `E`; `X?; REST` / `let p = X?; REST` -> a match on X
+    whose Err arm yields the error unchanged (a differing error type then fails to compile -> undecided). None when any other
+    `return` / `?` / `.await` remains."""
+    return _elim(_top_stmts(text))
+
+
+def _elim(stmts):
+    if not stmts:
+        return ""
+    s, rest = stmts[0], stmts[1:]
+    toks = lex(s)
+    if not toks:
+        return _elim(rest)
+    tx = [t.text for t in toks]
+    if not _has_exit(s):
+        r = _elim(rest)
+        return None if r is None else s + "\n" + r
+    if tx[0] == "return":
+        e = s[toks[0].end:toks[-1].start] if tx[-1] == ";" else s[toks[0].end:]
+        return None if _has_exit(e) or not e.strip() else e.strip()
+    if tx[0] == "if" and tx[1] != "let":
+        # find the block
+        k = 1
+        depth = 0
+        while k < len(toks) and not (toks[k].text == "{" and depth == 0):
+            if toks[k].text in ("(", "["):
+                depth += 1
+            elif toks[k].text in (")", "]"):
+                depth -= 1
+            k += 1
+        if k >= len(toks):
+            return None
+        c = match_close(toks, k)
+        if c != len(toks) - 1:
+            return None       # an else branch: not handled
+        cond = s[toks[0].end:toks[k].start]
+        if _has_exit(cond):
+            return None
+        inner = _top_stmts(s[toks[k].end:toks[c].start])
+        if not inner:
+            return None
+        last = lex(inner[-1])
+        if not last or last[0].text != "return":
+            return None
+        e = inner[-1][last[0].end:last[-1].start] if last[-1].text == ";" else inner[-1][last[0].end:]
+        prefix = "\n".join(inner[:-1])
+        if _has_exit(prefix) or _has_exit(e) or not e.strip():
+            return None
+        r = _elim(rest)
+        if r is None:
+            return None
+        return f"if {cond.strip()} {{ {prefix} {e.strip()} }} else {{ {r} }}"
+    if tx[-1] == ";" and len(tx) >= 3 and tx[-2] == "?":
+        if tx[0] == "let":
+            # let PAT = EXPR?;
+            depth = 0
+            eq = None
+            for k, t in enumerate(toks):
+                if t.text in ("(", "[", "{", "<"):
+                    depth += 1
+                elif t.text in (")", "]", "}", ">"):
+                    depth -= 1
+                elif t.text == "=" and depth == 0:
+                    eq = k
+                    break
+            if eq is None:
+                return None
+            pat = s[toks[0].end:toks[eq].start].strip()
+            expr = s[toks[eq].end:toks[-2].start].strip()
+            if _has_exit(expr):
+                return None
+            r = _elim(rest)
+            if r is None:
+                return None
+            return f"match {expr} {{ Err(__e) => Err(__e), Ok(__v) => {{ let {pat} = __v; {r} }} }}"
+        expr = s[:toks[-2].start].strip()
+        if _has_exit(expr):
+            return None
+        r = _elim(rest)
+        if r is None:
+            return None
+        return f"match {expr} {{ Err(__e) => Err(__e), Ok(_) => {{ {r} }} }}"
+    return None
+
+
+def _receiver_start(toks, dot_idx):
+    """start of the simple postfix expression ending just before the `.` at dot_idx: identifiers, field accesses, `*`/`&` prefixes are
+    NOT included; a call or index in the chain makes the receiver not simple (None)"""
+    i = dot_idx - 1
+    while True:
+        t = toks[i]
+        if t.kind == "ident" and toks[i - 1].text in (".", "::") and toks[i - 2].kind == "ident":
+            i -= 2
+            continue
+        if t.kind == "ident":
+            return i
+        return None
+
+
 def inline_helpers(source, qual, names):
     """returns (new Source, report list); raises LostAnchor when nothing could be inlined"""
     toks, src = source.toks, source.src
@@ -69,33 +231,71 @@ def inline_helpers(source, qual, names):
                     break
             continue
         h = _helper(toks, type_name, name)
+        h_toks, h_src, h_where = toks, src, None
+        if h is None:
+            h = _find_fn_anywhere(toks, name)
+        if h is None:
+            # R15b: the other source files of the same crate
+            for other in _crate_files(source.path):
+                try:
+                    otxt = open(other).read()
+                except OSError:
+                    continue
+                if ("fn " + name) not in otxt:
+                    continue
+                otoks = lex(otxt)
+                h = _find_fn_anywhere(otoks, name)
+                if h is not None:
+                    h_toks, h_src, h_where = otoks, otxt, os.path.relpath(other, os.path.dirname(source.path))
+                    break
         if h is None:
             continue
         h_fn, h_open, h_close = h
-        if h_open <= fn_idx <= h_close or (bopen <= h_fn <= bclose):
+        if h_toks is toks and (h_open <= fn_idx <= h_close or (bopen <= h_fn <= bclose)):
             continue
-        body_toks = toks[h_open + 1:h_close]
+        body_toks = h_toks[h_open + 1:h_close]
+        flat_body = None
         if any(t.text in ("return", "await") and t.kind == "ident" for t in body_toks) or any(t.text == "?" for t in body_toks):
-            continue
+            # R15c: early exits at statement level are turned into nested if/else / match, nothing else is attempted
+            flat_body = _eliminate_early_exits(h_src[h_toks[h_open].end:h_toks[h_close].start])
+            if flat_body is None:
+                continue
         if any(t.kind == "ident" and t.text == name and k + 1 < len(body_toks) and body_toks[k + 1].text == "(" for k, t in enumerate(body_toks)):
             continue      # recursive
-        if toks[h_fn - 1].text == "async":
+        if h_toks[h_fn - 1].text == "async":
             continue
         # parameters of the helper
         p_open = h_fn + 2
-        while toks[p_open].text != "(":
+        while h_toks[p_open].text != "(":
             p_open += 1
-        p_close = match_close(toks, p_open)
-        params = _split_args(toks, p_open, p_close)
+        p_close = match_close(h_toks, p_open)
+        params = _split_args(h_toks, p_open, p_close)
         has_self = False
+        self_bind = ""
         plist = []
         for (a, b) in params:
-            seg = toks[a:b]
+            seg = h_toks[a:b]
             txt = [t.text for t in seg]
             if "self" in txt and ":" not in txt:
                 has_self = True
+                self_bind = "&mut " if "mut" in txt and "&" in txt else ("&" if "&" in txt else "")
                 continue
-            plist.append(src[seg[0].start:seg[-1].end])
+            plist.append(h_src[seg[0].start:seg[-1].end])
+        h_body_text = h_src[h_toks[h_open].start:h_toks[h_close].end] if flat_body is None else "{ " + flat_body + " }"
+        # `Self` inside the helper names the helper's impl type, not the caller's
+        h_type = None
+        for (ty, _tr, io, ic) in find_impls(h_toks):
+            if io < h_fn < ic:
+                h_type = ty
+        if h_type and h_type != type_name:
+            def _deself(text):
+                out = text
+                for bt in reversed(lex(text)):
+                    if bt.kind == "ident" and bt.text == "Self":
+                        out = out[:bt.start] + h_type + out[bt.end:]
+                return out
+            h_body_text = _deself(h_body_text)
+            plist = [_deself(q) for q in plist]
         # call sites inside the function body
         k = bopen + 1
         n_sites = 0
@@ -109,19 +309,37 @@ def inline_helpers(source, qual, names):
                     start = k - 2
                 elif not has_self and toks[k - 1].text not in (".", "::"):
                     start = k
+                body_text = h_body_text
+                recv_let = ""
+                if start is None and has_self and toks[k - 1].text == ".":
+                    # R15b: any simple receiver — the helper's `self` is bound to it and renamed in the body
+                    rs = _receiver_start(toks, k - 1)
+                    if rs is not None and toks[rs].text not in ("self",):
+                        start = rs
+                        sv = f"__self_{len(edits)}"
+                        recv_let = f"let {sv} = {self_bind}{src[toks[rs].start:toks[k - 2].end]}; "
+                        out_b = []
+                        for bt in lex(h_body_text):
+                            out_b.append((bt.start, bt.end, sv if (bt.kind == "ident" and bt.text == "self") else None))
+                        nb = h_body_text
+                        for (a0, b0, rep) in reversed(out_b):
+                            if rep:
+                                nb = nb[:a0] + rep + nb[b0:]
+                        body_text = nb
                 if start is not None:
                     c_close = match_close(toks, k + 1)
                     args = _split_args(toks, k + 1, c_close)
                     if len(args) == len(plist):
-                        lets = "".join(f"let {p} = {src[toks[a].start:toks[b - 1].end]}; " for p, (a, b) in zip(plist, args))
-                        block = "{ " + lets + src[toks[h_open].start:toks[h_close].end] + " }"
+                        lets = recv_let + "".join(f"let {p} = {src[toks[a].start:toks[b - 1].end]}; " for p, (a, b) in zip(plist, args))
+                        block = "{ " + lets + body_text + " }"
                         edits.append((toks[start].start, toks[c_close].end, block))
                         n_sites += 1
                         k = c_close + 1
                         continue
             k += 1
         if n_sites:
-            report.append(("R15-inline", f"{n_sites} call(s) of helper `{name}` (defined at line {source.line_of(toks[h_fn].start)}) replaced by its body"))
+            where = f"defined in {h_where}" if h_where else f"defined at line {source.line_of(toks[h_fn].start)}"
+            report.append(("R15-inline", f"{n_sites} call(s) of helper `{name}` ({where}) replaced by its body"))
     if not edits:
         raise LostAnchor(f"{qual}: no simple same-file definition of {', '.join(sorted(names))} to inline")
     out = src
